@@ -1504,6 +1504,9 @@ func (v *VMValue) ComputedExecute(ctx *Context, detail *BufferSpan) *VMValue {
 	} else {
 		vm.code = cd.code
 		vm.codeIndex = cd.codeIndex
+		// 预编译的表达式没有 parser；骰点指令(如 d、2d 的默认面数)和计算过程需要读取原文，这里补一个
+		vm.parser = &parser{data: []byte(cd.Expr)}
+		vm.parser.pt.offset = len(vm.parser.data)
 		vm.evaluate()
 	}
 
@@ -1602,6 +1605,9 @@ func (v *VMValue) FuncInvokeRaw(ctx *Context, params []*VMValue, useUpCtxLocal b
 	} else {
 		vm.code = cd.code
 		vm.codeIndex = cd.codeIndex
+		// 预编译的函数体没有 parser；骰点指令(如 d、2d 的默认面数)需要读取原文，这里补一个
+		vm.parser = &parser{data: []byte(cd.Expr)}
+		vm.parser.pt.offset = len(vm.parser.data)
 		vm.evaluate()
 	}
 
